@@ -226,6 +226,10 @@ class Normaliser:
                 tv = (s.target.id, s.value)
             if tv and counts.get(tv[0]) == 1 and self.literal(tv[1]):
                 self.consts[tv[0]] = tv[1]
+        for n in ast.walk(module):       # a module-level name some function rebinds is not a constant
+            if isinstance(n, ast.Global):
+                for g in n.names:
+                    self.consts.pop(g, None)
         self.done = {}                   # id(function node) -> normalised
         self.stack = []
         self.foreign = {}                # module path -> Normaliser
